@@ -121,7 +121,13 @@ F3b == { Case("F3", <<Rule("start", Cat(Un(o2, NT(n \o Suffix(op))), B)), Rule(n
        \cup { Case("F3", <<Rule("start", Cat(C, Un(o2, NT(n \o Suffix(op))))), Rule(n \o Suffix(op), Alt(Cat(A, B), A))>>) :
            op \in UnaryOps, o2 \in UnaryOps, n \in {"gen_a_", "gen2_"} }
 
-All == F3b \cup F8 \cup F7 \cup F1 \cup F2 \cup F2b \cup F2c \cup F2d \cup F3 \cup F4 \cup F6
+\* several handles of both kinds in one directive, in every order
+F8b == { Case("F8", <<Rule("start", Alt(Alt(Cat(Cat(NT("start"), A), NT("start")), Cat(Cat(NT("start"), B), NT("start"))), C)),
+                     Dir(a, [j \in 1..3 |-> hs[o[j]]])>>) :
+           a \in {"left", "right"}, o \in { p \in [1..3 -> 1..3] : \A x, y \in 1..3 : x # y => p[x] # p[y] },
+           hs \in { << HTerm("a", TRUE), HRule("start", Cat(Cat(NT("start"), A), NT("start"))), HRule("start", Cat(Cat(NT("start"), B), NT("start"))) >> } }
+
+All == F8b \cup F3b \cup F8 \cup F7 \cup F1 \cup F2 \cup F2b \cup F2c \cup F2d \cup F3 \cup F4 \cup F6
 ASSUME /\ ndJsonSerialize("gen_specs.ndjson", SetToSeq(All))
        /\ PrintT(<<"GENERATED", Cardinality(All), "F1", Cardinality(F1), "F2", Cardinality(F2) + Cardinality(F2b) + Cardinality(F2c) + Cardinality(F2d), "F3", Cardinality(F3), "F4", Cardinality(F4)>>)
 =============================================================================
